@@ -1,0 +1,9 @@
+//go:build verif
+
+// Contracts for the verification machinery in /verif (comment-only file; compiled only with -tags verif).
+package analysishelper
+
+//@ -- position rendering is a function of the pass and the position (body: see C18)
+//@ func (*EnhancedPass).PosToLocation
+//@ pure
+//@ nobody
